@@ -192,7 +192,8 @@ def _faithful(form, a, wa, b, wb, proto) -> bool:
             probs.append(f'the query has parameters {[p.name for p in ir.params]} but the input descriptor is {type(idesc).__name__}')
     except Exception as e:      # noqa: BLE001
         probs.append(f'input descriptor does not parse back under protocol {proto}: {type(e).__name__}: {e}')
-    # equal ids => identical bytes
+    # equal ids => identical bytes (against the reference queries and the queries seen so far in this process)
+    _load_references(proto)
     for tid, data, what in ((q.out_type_id, q.out_type_data, 'out'), (q.in_type_id, q.in_type_data, 'in')):
         key = (proto, what, bytes(tid))
         if key in _SEEN and _SEEN[key][0] != bytes(data):
@@ -216,6 +217,28 @@ def _faithful(form, a, wa, b, wb, proto) -> bool:
 
 
 EXCLUDE_KNOWN = [True]
+_REFS_LOADED = set()
+
+
+def _load_references(proto):
+    """A fixed set of reference queries whose descriptors are registered first in every process, so that a
+    clash "same id, different bytes" does not depend on which queries this process happened to run before
+    (a counterexample is replayed in a fresh process)."""
+    if proto in _REFS_LOADED:
+        return
+    _REFS_LOADED.add(proto)
+    refs = [F.ATOMS[a][0] for a in range(F.NATOM)]
+    refs += [('tuple', F.ATOMS[a][0], ('str', 'c')) for a in (3, 4, 6, 15, 16, 17, 18, 19)]
+    refs += [('tuple', ('param', 's', 'std::str', o1), ('param', 'n', 'std::int64', o2)) for o1 in (False, True) for o2 in (False, True)]
+    for t in refs:
+        try:
+            q = C._compile_ql_query(_ctx(proto), Q.as_statement(t))
+        except Exception:      # noqa: BLE001
+            continue
+        for tid, data, what in ((q.out_type_id, q.out_type_data, 'out'), (q.in_type_id, q.in_type_data, 'in')):
+            key = (proto, what, bytes(tid))
+            if key not in _SEEN:
+                _SEEN[key] = (bytes(data), Q.text(t), t)
 
 
 def _strip_names(d):
